@@ -46,10 +46,16 @@ var commonAssumptions = []string{
 
 func init() {
 	register(&Def{
+		ID: "C20", Level: "exploration", MinSigs: 40,
+		Rule:        "direct: protocols {-1,0,1,2,3,4,5,99,2^31-1} x a grammar of counterparty strings (signs, leading zeros, 2^32-1, 2^32, 2^63, >int64, Unicode digits, spaces/NUL, channel-N forms, separators inside, lengths 0,1,32,33, random) through NewCrossChainID/ID/ParseCrossChainID: accepted => round trip, injective text, canonical decimal 32-bit domain for CCTP/Hyperlane, length <= 32; every parsable text re-renders to itself; CounterpartyID() of the attributes = canonical decimal. Behavioural: for every calibrated CCTP/Hyperlane domain, 12 spellings of the domain are sent through the real PauseCrossChains message; every accepted spelling must make the probe transfer to that domain be refused, and only one spelling may be accepted. distinct = (protocol, string class) and behavioural (protocol, spelling class, accepted?, outcome)",
+		Assumptions: commonAssumptions,
+		Run:         withLab(world.Config{}, CheckC20),
+	})
+	register(&Def{
 		ID: "C19", Level: "exploration", MinSigs: 20,
 		Rule:        "per shard one history of 60 (thorough 400) blocks is recorded as raw transaction bytes + counterparty packet commitments: orbiter packets carrying the mutated-memo corpus of C14/C15 (error acknowledgements of every class), hostile attributes and packet data, successful transfers, admin messages (valid/invalid/unauthorized), deposits; it is replayed on a reference world, 2 sequential fresh worlds, 3-4 worlds on parallel goroutines and 2-3 fresh processes (fresh map seeds, ASLR); every replay must equal the reference byte for byte in acknowledgement bytes, tx code/codespace/data, ordered events, gas, every block's AppHash, the exported orbiter state, the bank store digest and the decoded map-valued queries. The race-detector build runs the parallel part (see race_reports). non-trivial = every replay comparison; distinct = error-acknowledgement text classes (digits stripped) present in the stream and replay instances",
 		Assumptions: append([]string{"nondeterminism that needs a different machine, architecture or Go version is out of reach", "tx logs (not committed, not in the statement) are compared separately and only counted"}, commonAssumptions...),
-		Run: func(e *fw.Env) { CheckC19(e, nil) },
+		Run:         func(e *fw.Env) { CheckC19(e, nil) },
 	})
 	register(&Def{
 		ID: "C15", Level: "exploration", MinSigs: 300,
